@@ -643,6 +643,52 @@ let fdec (rest : string) : string =
               "wire=" ^ hexs (Stdlib.List.concat chunks) ^ " frames=" ^ Stdlib.String.concat "/" (Stdlib.List.map (fun c -> dec (strip c)) chunks)))
   | _ -> failwith "fdec: form"
 
+(* ---------- sfr: the SASL frame codec and the PLAIN listener on the bytes of a frame ---------- *)
+let sfr (rest : string) : string =
+  let ws = words rest in
+  let split_c s = if s = "-" then [] else Stdlib.String.split_on_char ',' s in
+  let hexs (b : coq_N list) : string = Stdlib.String.concat "" (Stdlib.List.map (fun x -> Printf.sprintf "%02x" (int_of_n x)) b) in
+  let value_of_hex (h : string) : Value.value =
+    let bs = bytes_of_hex h in
+    match Dec.from_slice (nat_of_int (Stdlib.List.length bs + 1)) bs with
+    | Bytes.Ok (v, []) -> v
+    | _ -> failwith ("sfr: field does not decode in the model: " ^ h) in
+  let show_fields (fvs : Value.value list) : string =
+    if fvs = [] then "-" else
+    Stdlib.String.concat "," (Stdlib.List.map (fun v -> match Enc.enc_bytes v with Some b -> hexs b | None -> "ENCERR") fvs) in
+  let dec (bs : coq_N list) : string =
+    match SaslFrame.dec_sasl_frame (nat_of_int (Stdlib.List.length bs + 1)) bs with
+    | Bytes.Ok f ->
+        (* the typed structs hold fields of their declared types: what the value-level decoder accepts beyond that is an error there *)
+        if SaslWire.typed_ok f then
+          "ok code=" ^ str_n f.SaslFrame.sf_schema.Composite.s_code ^ " fields=" ^ show_fields f.SaslFrame.sf_fields
+        else "err"
+    | Bytes.Err _ -> "err"
+    | Bytes.Panic -> "PANIC"
+    | Bytes.OutOfFuel -> "OUTOFFUEL" in
+  match ws with
+  | "dec" :: hx :: _ -> dec (bytes_of_hex hx)
+  | "dec" :: [] -> dec []
+  | "enc" :: _ ->
+      let code = n_of_string (kv ws "code") in
+      let s = match Composite.dispatch SaslFrame.sasl_schemas (Value.DCode code) with
+        | Some s -> s | None -> failwith "sfr: not a SASL frame body" in
+      let vs = Stdlib.List.map value_of_hex (split_c (kv ws "fields")) in
+      (match SaslFrame.enc_sasl_frame { SaslFrame.sf_schema = s; SaslFrame.sf_fields = vs } with
+       | Some b -> "enc=" ^ hexs b ^ " dec=" ^ dec b
+       | None -> "enc=ERR")
+  | "plw" :: _ ->
+      let hb k = let h = kv ws k in if h = "-" then [] else bytes_of_hex h in
+      let last = Stdlib.List.nth ws (Stdlib.List.length ws - 1) in
+      let bs = if Stdlib.String.contains last '=' then [] else bytes_of_hex last in
+      let (st, o) = SaslWire.plain_on_frame_bytes (nat_of_int (Stdlib.List.length bs + 1)) (hb "u") (hb "p") bs in
+      let toks = Stdlib.List.filter_map (fun x -> match x with
+          | SaslListener.LOutOk -> Some "OutOk" | SaslListener.LOutFail -> Some "OutFail" | SaslListener.LH -> Some "H" | _ -> None) o in
+      let acc = if Stdlib.List.mem SaslListener.LAcceptErr o then "accept=err" else if Stdlib.List.mem SaslListener.LAcceptOk o then "accept=ok" else "accept=pending" in
+      ignore st;
+      (if toks = [] then "-" else Stdlib.String.concat "," toks) ^ " | " ^ acc
+  | _ -> failwith "sfr: form"
+
 (* ---------- msg: the message codec at the level of sections ---------- *)
 let msg (rest : string) : string =
   let ws = words rest in
@@ -1050,6 +1096,7 @@ let dispatch (line : string) : string =
        | "ldf" -> frame_ldf rest
        | "comp" -> comp rest
        | "fdec" -> fdec rest
+       | "sfr" -> sfr rest
        | "msg" -> msg rest
        | "enc" -> codec_enc rest
        | "dec" -> codec_dec rest
